@@ -397,72 +397,6 @@ def tagnum(t):
 
 # --- classification of oracle failures against the known findings (narrow, spec + observation) ---------------
 
-def final_ids(prog):
-    """(group name, final id, obj) of the wrapped functions of one module, computed the documented way:
-    unique names stay, repeated names get name[id] / name[i] / name[args]."""
-    objs = {}
-    order = []
-    for st in prog["stmts"]:
-        if st["k"] == "def":
-            objs[st["obj"]] = {"fname": st["fname"], "params": st["params"], "defaults": st["defaults"], "name": None, "id": None, "kwargs": {}}
-        elif st["k"] == "wrap" and st["obj"] in objs:
-            o = objs[st["obj"]]
-            o["name"] = st["name"] if st.get("name") else o["fname"]
-            o["id"] = st.get("id")
-            o["kwargs"] = st.get("kwargs") or {}
-            order.append(st["obj"])
-    groups: dict = {}
-    for ob in order:
-        groups.setdefault(objs[ob]["name"], []).append(ob)
-    out = []
-    for name, obs in groups.items():
-        if len(obs) == 1:
-            out.append((name, name, obs[0]))
-            continue
-        params = objs[obs[0]]["params"]
-        for i, ob in enumerate(obs):
-            o = objs[ob]
-            if o["id"] is not None:
-                out.append((name, f"{name}[{o['id']}]", ob))
-            elif not params:
-                out.append((name, f"{name}[{i}]", ob))
-            else:
-                comps = []
-                for p in params:
-                    v = o["kwargs"].get(p, o["defaults"].get(p))
-                    if v is not None and v[0] in "bifs":
-                        comps.append(str(v[1]))
-                    else:
-                        comps.append(f"{p}{i}")
-                out.append((name, f"{name}[{'-'.join(comps)}]", ob))
-    return out
-
-
-def f8a_objs(prog):
-    """Tags of wrapped functions whose final id coincides with the final id of a function of a *different* name group."""
-    ids = final_ids(prog)
-    tags = {st["obj"]: st["tag"] for st in prog["stmts"] if st["k"] == "def"}
-    bad = set()
-    for g1, i1, o1 in ids:
-        for g2, i2, o2 in ids:
-            if o1 != o2 and i1 == i2 and g1 != g2:
-                bad.add(tags[o1])
-    return bad
-
-
-def f8b_names(prog):
-    """Base names claimed both by an unwrapped task_ function (prefix hook) and by a wrapped function (decorator hook)."""
-    wrapped = {st["obj"] for st in prog["stmts"] if st["k"] == "wrap"}
-    binds = {}
-    for st in prog["stmts"]:
-        if st["k"] == "def" and st.get("bind"):
-            binds[st["bind"]] = st["obj"]
-        elif st["k"] == "value":
-            binds[st["bind"]] = None
-    plain = {n for n, o in binds.items() if o is not None and o not in wrapped and n.startswith("task_")}
-    return plain & {i for _, i, _ in final_ids(prog)}
-
-
 def module_key(case, rel: str):
     """(dotted module name `import_path` uses for a file, ("pkg", pkg_root rel | None) | ("path", None)) — used for the
     classification of F12 only."""
@@ -538,40 +472,17 @@ def judge(ctx, case, ob):
     tag_file = {st["tag"]: f for f, pr in case["files"].items() if pr is not None for st in pr["stmts"] if st["k"] == "def"}
     what = (f"exit={ob['exit']} tasks={len(got)} expected={len(exp)} missing-bodies={missing} extra-bodies={extra} "
             f"duplicate-names={[n.split('/')[-1] for n in dup_names]}")
-    # Every symptom must be explained by exactly one known class, otherwise the whole case is a fresh violation.
-    findings = set()
-    explained = not dup_sigs or bool(dup_names)
-    for n in dup_names:
-        # F8b: the duplicated name is one prefix-hook function + one decorator-hook function of one module
-        ts = [t for t in ob["tasks"] if t["name"] == n]
-        rels = {os.path.relpath(t["path"], root) for t in ts}
-        prog = case["files"].get(next(iter(rels))) if len(rels) == 1 else None
-        if len(ts) == 2 and prog is not None and ts[0]["base"] in f8b_names(prog) and ts[0]["base"] == ts[1]["base"]:
-            findings.add("F8b")
-        else:
-            explained = False
-    if missing or extra:
+    # A symptom is a known finding only if it belongs to the F12 class (module name not the file's own); duplicated
+    # names, or bodies lost in a module with a unique import name, are fresh violations (F8a / F8b are repaired).
+    explained = not dup_names and not dup_sigs
+    if explained and (missing or extra):
         coll = collision_files(case, ob)
-        by_file: dict = {}
-        for t in missing:
-            by_file.setdefault(tag_file.get(t), [[], []])[0].append(t)
-        for t in extra:
-            by_file.setdefault(tag_file.get(t), [[], []])[1].append(t)
-        for f, (miss, ext) in by_file.items():
-            prog = case["files"].get(f) if f is not None else None
-            if prog is None:
+        for t in set(missing) | set(extra):
+            f = tag_file.get(t)
+            if f is None or case["files"].get(f) is None or f not in coll:
                 explained = False
-            elif f in coll:
-                # F12: bodies lost / doubled only in modules whose import name is not theirs alone
-                findings.add("F12")
-            elif not ext and all(t in f8a_objs(prog) for t in miss):
-                # F8a: only bodies whose final id collides with the id of another name group are lost
-                findings.add("F8a")
-            else:
-                explained = False
-    if explained and findings:
-        for fid in sorted(findings):
-            ctx.violation(f"known-class {fid}: " + what, rp, finding=fid)
+    if explained and (missing or extra):
+        ctx.violation("known-class F12: " + what, rp, finding="F12")
     else:
         ctx.violation("exactly-once: " + what, rp, finding=None)
     return False
@@ -772,14 +683,15 @@ def random_case(rng, cid, focus=None):
 
 
 def witness_cases():
-    """Canonical witnesses (DESIGN §6 F8a, F8b, F12 and the variants found while modelling) + benign controls."""
+    """Corpus: the former F8a / F8b witnesses (repaired by 2ddbdf4 / faa5f38: they must now fail collection with exit
+    code 3; also stored as corpus/C13/*.json), the F12 witnesses and their variants, benign controls."""
     g = Gen(None)
     out = []
-    # F8a: a loop of two `f` without parameters (ids f[0], f[1]) + an explicit name "f[0]"
+    # former F8a: a loop of two `f` without parameters (ids f[0], f[1]) + an explicit name "f[0]"
     a, b, c = g.mkdef("f", "f", style="factory"), g.mkdef("f", "f", style="factory"), g.mkdef("g", "g", style="def")
     out.append({"id": "w-f8a", "dirs": [], "paths": [""], "ignore": [], "task_files": None, "files": {"task_m.py": {"imports": [], "stmts": [
         a, g.wrap(a["obj"], "f"), b, g.wrap(b["obj"], "f"), c, g.wrap(c["obj"], "f[0]")]}}})
-    # F8b: def task_x + @task(name="task_x") def other
+    # former F8b: def task_x + @task(name="task_x") def other
     a, b = g.mkdef("task_x", "task_x", style="def"), g.mkdef("other", "other", style="def")
     out.append({"id": "w-f8b", "dirs": [], "paths": [""], "ignore": [], "task_files": None, "files": {"task_m.py": {"imports": [], "stmts": [
         a, b, g.wrap(b["obj"], "task_x")]}}})
@@ -970,9 +882,23 @@ def shrink_candidates(case):
         yield c
 
 
+MUST_FAIL_COLLECTION = ("w-f8a", "w-f8b")
+
+
+def corpus_cases():
+    """corpus/C13/*.json (minimised past witnesses) — replayed before anything is generated."""
+    out = []
+    d = common.VERIF / "corpus" / "C13"
+    for f in sorted(d.glob("*.json")) if d.is_dir() else []:
+        out.append(json.loads(f.read_text()))
+    return out
+
+
 def campaign(ctx):
     rng = ctx.rng
-    cases = witness_cases()
+    cases = corpus_cases()
+    have = {c["id"] for c in cases}
+    cases += [c for c in witness_cases() if c["id"] not in have]
     n = ctx.scale(180, 2500)
     for i in range(n):
         cases.append(random_case(rng, f"r{i}"))
@@ -983,5 +909,9 @@ def campaign(ctx):
     shrink_violations(ctx, start)
     pmatch_campaign(ctx, ctx.scale(300, 5000))
     found = {v["finding"] for v in ctx.violations}
-    for fid in ("F8a", "F8b", "F12"):
-        ctx.extra[f"selftest_{fid}_witness_detected"] = fid in found
+    ctx.extra["selftest_F12_witness_detected"] = "F12" in found
+    for cid in MUST_FAIL_COLLECTION:
+        ob = obs.get(cid)
+        ctx.extra[f"corpus_{cid}_exit"] = None if ob is None else ob.get("exit")
+        if ob is not None and ob.get("exit") != 3 and not any(v["replay"].get("case", {}).get("id") == cid for v in ctx.violations):
+            ctx.violation(f"corpus: {cid} must fail collection (exit 3) since its repair, got exit {ob.get('exit')}", {"case": next(c for c in cases if c["id"] == cid)})
